@@ -43,7 +43,6 @@ Definition line_metadata (fuel : nat) : parser s_metadata :=
 
 (* dispatch on the next character, if any: `;` starts metadata on the same line *)
 Definition block_metadata (fuel : nat) : parser (list s_metadata) :=
-  fun i => match i with
-           | 59 :: _ => separated1 fuel (line_metadata fuel) space1 i
-           | _ => preceded line_ending_or_eof (many0 fuel (preceded space1 (line_metadata fuel))) i
-           end.
+  fun i => if match i with c :: _ => c =? 59 | [] => false end
+           then separated1 fuel (line_metadata fuel) space1 i
+           else preceded line_ending_or_eof (many0 fuel (preceded space1 (line_metadata fuel))) i.
